@@ -206,7 +206,12 @@ class Scheduler:
 
     # ---- actor side ------------------------------------------------------
     def me(self) -> Optional[Actor]:
-        return self.by_thread.get(threading.get_ident())
+        # thread idents are recycled by the OS: a pool thread spawned by the library may reuse
+        # the ident of an actor that already finished, so the thread object is compared as well
+        a = self.by_thread.get(threading.get_ident())
+        if a is not None and a.thread is threading.current_thread():
+            return a
+        return None
 
     def count(self, name: str, n: int = 1) -> None:
         self.counters[name] = self.counters.get(name, 0) + n
@@ -254,6 +259,7 @@ class Scheduler:
         except BaseException as e:  # library exceptions are outcomes, kept for the oracle
             a.exc = e
         finally:
+            self.by_thread.pop(threading.get_ident(), None)
             with self.cv:
                 a.state = "done"
                 self.cv.notify_all()
@@ -515,31 +521,44 @@ def adopt(sched: Scheduler, *tables: Any) -> None:
 # bounded-preemption DFS
 # --------------------------------------------------------------------------
 
+def _owner(dev: Sequence[Tuple[int, str, int]], sn: int) -> int:
+    import zlib
+
+    return zlib.crc32(repr([(n, a) for n, a, _c in dev]).encode()) % sn
+
+
 def explore_bounded(run_once: Callable[[Sequence[Tuple[int, str, int]]], Tuple[Scripted, Any]],
                     k: int, shard: Tuple[int, int] = (0, 1), max_runs: int = 100000,
-                    on_result: Optional[Callable[[Sequence[Tuple[int, str, int]], Any], None]] = None
-                    ) -> Dict[str, int]:
+                    on_result: Optional[Callable[[Sequence[Tuple[int, str, int]], Any], None]] = None,
+                    split_depth: int = 2) -> Dict[str, int]:
     """Stateless enumeration of all schedules with <= k preemptions.
 
     run_once(deviations) executes one schedule and returns (strategy, result).
-    The root's children are split over shards; the root itself goes to shard 0.
+    Sharding: nodes above `split_depth` deviations are executed by every shard
+    (they are needed to discover their children) but reported only by their
+    owner; a subtree rooted at depth `split_depth` is explored only by the shard
+    that owns its root (crc of the deviation list), which balances the shards
+    even though early deviations have much larger subtrees than late ones.
     """
     si, sn = shard
-    stats = {"runs": 0, "truncated": 0, "infeasible": 0}
-    stack: List[Tuple[List[Tuple[int, str, int]], bool]] = [([], True)]
+    stats = {"runs": 0, "truncated": 0, "infeasible": 0, "shared_prefix_runs": 0}
+    stack: List[List[Tuple[int, str, int]]] = [[]]
     while stack:
-        dev, is_root = stack.pop()
-        if stats["runs"] >= max_runs:
+        dev = stack.pop()
+        if stats["runs"] + stats["shared_prefix_runs"] >= max_runs:
             stats["truncated"] = 1
             break
         strat, result = run_once(dev)
-        report = not is_root or si == 0
+        depth = len(dev)
+        mine = depth >= split_depth or _owner(dev, sn) == si
         if strat.infeasible:
             stats["infeasible"] += 1
-        elif report:
+        elif mine:
             stats["runs"] += 1
             if on_result is not None:
                 on_result(dev, result)
+        else:
+            stats["shared_prefix_runs"] += 1
         last = dev[-1][0] if dev else -1
         used = sum(c for _n, _a, c in dev)
         children = []
@@ -550,9 +569,10 @@ def explore_bounded(run_once: Callable[[Sequence[Tuple[int, str, int]]], Tuple[S
             if used + c > k:
                 continue
             for a in alts:
-                children.append(dev + [(n, a, c)])
-        if is_root:
-            children = [ch for i, ch in enumerate(children) if i % sn == si]
+                ch = dev + [(n, a, c)]
+                if len(ch) == split_depth and _owner(ch, sn) != si:
+                    continue
+                children.append(ch)
         for ch in reversed(children):
-            stack.append((ch, False))
+            stack.append(ch)
     return stats
